@@ -27,15 +27,10 @@ theorem safe_live {s : St} (hi : Inv s) {t : Tid} {w : Bool} {r c : Nat} (hh : s
   · have hheld := hi.d.held u
     simp only [eview_vpc, dview_vpc] at g hheld
     cases hp : s.pc u with
-    | eFix c' o p x =>
-      rw [hp] at g hheld; simp only [EView, pendNode, DView, HeldP, dview_nled] at g hheld
-      injection g with g; subst g; exact hheld.2
-    | eAlloc c' o =>
-      rw [hp] at g hheld; simp only [EView, pendNode, DView, HeldP, dview_nled] at g hheld
-      injection g with g; subst g; exact hheld.2
-    | eCons c' o z =>
-      rw [hp] at g hheld; simp only [EView, pendNode, DView, HeldP, dview_nled] at g hheld
-      injection g with g; subst g; exact hheld.2
+    | eFix c' o p x z =>
+      rw [hp] at g hheld; simp only [EView, pendNode, DView, HeldP, dview_nled, dview_zn, eview_zn] at g hheld
+      obtain ⟨c', h1, h2⟩ := hheld
+      rw [h1] at g; injection g with g; subst g; exact h2
     | eZh o z =>
       rw [hp] at g hheld; simp only [EView, pendNode, DView, HeldP, dview_nled, dview_zn, eview_zn] at g hheld
       obtain ⟨c', h1, h2⟩ := hheld
